@@ -979,6 +979,14 @@ impl Interp {
                 if self.poisoned_keys.iter().any(|(tb, _, _)| tb == table) {
                     t.push("unique.key_reused_after_noncommit".to_string());
                 }
+                // ... or rows whose DELETE did not commit (or has not yet): after a crash recovery undoes that
+                // DELETE by inserting the row again, now against the new index (same open finding as a
+                // non-committed DELETE on a table that already has one: F-C08-undo-delete-hits-unique)
+                let rolled_back = self.poisoned_rows.iter().any(|(tb, _)| tb == table);
+                let open = self.txns.values().any(|x| x.effects.iter().any(|e| matches!(e, Effect::Delete { table: tb, .. } if tb == table)));
+                if rolled_back || open {
+                    t.push("delete.in_txn_on_unique_table".to_string());
+                }
             }
             Stmt::DropTable { table } => {
                 // names are reused: forget poison of a dropped table
